@@ -147,3 +147,49 @@ def fanout_iteration_source(body, dg):
         if (c.get("resolved") or c.get("f")) == SM + "::used_streams":
             out.append((b, "live", "reads through the reference returned by used_streams()"))
     return out
+
+
+# ---------------------------------------------------------------------------------------------- wait loops of flush / end_* (C06, C07)
+def timeout_nonzero_edges(body, dg):
+    """true-edge targets of `timeout != Duration::ZERO` tests (PartialEq::ne on the captured timeout)"""
+    out = []
+    for b in sorted(body.reachable):
+        t = body.term(b)
+        if t[0] != "Switch" or t[5] != "bool": continue
+        e = strip_casts(dg.expr(t[1]))
+        if e[0] == "call" and e[1].endswith("PartialEq::ne") and "timeout" in show(e[2][0]):
+            zero = [tg for (v, tg) in t[2] if v == 0]
+            if not zero or zero[0] != t[3]: out.append(t[3])
+        if e[0] == "call" and e[1].endswith("PartialEq::eq") and "timeout" in show(e[2][0]):
+            zero = [tg for (v, tg) in t[2] if v == 0]
+            if zero and zero[0] != t[3]: out.append(zero[0])
+    return out
+
+
+def ret_assignments(body):
+    """blocks that define the return place _0 (statement or call destination)"""
+    out = []
+    for b in sorted(body.reachable):
+        for st in body.stmts(b):
+            if st[0] == "A" and not st[1]["p"] and st[1]["l"] == 0: out.append((b, st[2]))
+        t = body.term(b)
+        if t[0] == "Call" and not t[1]["dst"]["p"] and t[1]["dst"]["l"] == 0: out.append((b, ["CallRes", t[1]]))
+    return out
+
+
+def wait_loop_of(body, pred):
+    """the largest natural loop containing a call satisfying pred"""
+    cands = [h for h, blocks in body.loops.items() if any(b in blocks and pred(c) for (b, c) in body.calls)]
+    return max(cands, key=lambda h: len(body.loops[h])) if cands else None
+
+
+def classify_exits(body, dg, h, is_success_edge):
+    """exits of loop h that can reach a return: list of (x, y, kind) with kind 'success' | 'timeout' | 'other'"""
+    nz = timeout_nonzero_edges(body, dg)
+    out = []
+    for (x, y) in body.loop_exits(h):
+        if y not in body.can_return: continue
+        if is_success_edge(x, y): out.append((x, y, "success"))
+        elif any(body.dominates(t, x) or t == y for t in nz): out.append((x, y, "timeout"))
+        else: out.append((x, y, "other"))
+    return out
